@@ -19,6 +19,7 @@ HASH_SENSITIVE = [
     "Mix @&sauce{} well\n",
     "~{10%min} then ~{5%Min} and 15 MIN or 2 KG, 3 kg\n",
     "~{5%Min} @a{1%Kg} 15 MIN\n",
+    "Add 2 tablespoons of oil, 500 millilitres of stock and 3 kilograms of bones; simmer 90 minutes at 180 celsius\n",
     ">> servings: 2|4\n>> tags: a, b, a\n>> author: Me <https://me.example>\n>> locale: en_GB\n@x{1 1/2%cups} @y{0.333%cup} @z{7%oz}\n",
 ]
 
@@ -34,6 +35,8 @@ def check_c18(ctx):
     texts += [x["text"] for x in random_corpus(ctx, 25, [t["text"] for t in repo])]
     pin = os.path.join(ctx.work, "inputs.ndjson")
     core.write_ndjson(pin, [dict(text=t) for t in texts])
+    # every other run starts all threads on this input: whatever a brand-new parser builds lazily is raced for
+    COLD = next(i for i, t in enumerate(texts) if "tablespoons" in t)
     runs = 12 if quick else 60
     trace = os.path.join(ctx.work, "shared.ndjson")
     events = 0
@@ -64,7 +67,8 @@ def check_c18(ctx):
             po = os.path.join(ctx.work, f"run{k}.ndjson")
             ext, conv = CONFIGS[k % 3]
             core.run_harness(ctx, ["shared", "--in", pin, "--out", po, "--threads", "8", "--calls", "60" if quick else "150",
-                                   "--ext", ext, "--conv", conv, "--base", basefile[(ext, conv)]], env={"VERIF_SEED": str(ctx.seed + k)})
+                                   "--ext", ext, "--conv", conv, "--base", basefile[(ext, conv)]]
+                             + (["--cold", str(COLD)] if k % 2 == 0 else []), env={"VERIF_SEED": str(ctx.seed + k)})
             with open(po) as f:
                 for line in f:
                     out.write(line)
